@@ -41,6 +41,16 @@ def scenarios(pid, tier, rng):
             for m in (1, 2):
                 scs.append({"loops": loops, "submitters": m, "per": 150, "body": "trivial", "join": False, "max": 16,
                             "stop_after_ms": rng.choice([1, 3, 6])})
+        # the two LoopStop.tla counterexamples (deviations announce_in_thread, unguarded_submit) forced on the
+        # real threads through pause points: a stop that arrives while the loop threads are still starting, and a
+        # stop that runs while one submitter sits between the pool's state check and its push
+        for loops in (1, 2):
+            for late in ((40, 120) if thorough else (60,)):
+                scs.append({"loops": loops, "submitters": 2, "per": 40, "body": "trivial", "join": False, "max": 16,
+                            "stop_after_ms": rng.choice([0, 1, 2]), "late_loop_ms": late})
+            for k in ((1, 35, 80) if thorough else (rng.choice([1, 20, 35]), 80)):
+                scs.append({"loops": loops, "submitters": 2, "per": 40, "body": "trivial", "join": False, "max": 16,
+                            "stop_after_ms": 1, "race_task": k})
     elif pid == "C15":
         for n in (2, 4, 8):
             for d in (100, 300) if thorough else (100,):
